@@ -274,16 +274,17 @@ PROPS["C17"] = dict(
 
 PROPS["C18"] = dict(
     verus_units=["watchdog"],
-    technique="Verus contract on endpoints.rs::apply_to_body (the wrapper every transform goes through), closure argument by its requires/ensures",
+    technique="Verus contracts on endpoints.rs::apply_to_body and apply_to_body_json (the two wrappers every transform goes through), closures by their requires/ensures",
     level_text="unbounded deductive proof (any status, any number/size of headers, any body bytes) that apply_to_body returns, with no headers, the original status and a "
-               "body that is empty unless the status is 200 and the body is UTF-8 text, in which case it is exactly the extractor's output for that text",
-    level_note="PARTIAL: apply_to_body_json (closure calling serde_json::from_str / Value::to_string) and the per-endpoint extractors (json! + Index + as_u64, "
-               "text.parse::<u64>()) rest on serde_json / core::str::parse and are not under contract: canonical form of the JSON object, insensitivity to whitespace / "
-               "member order / other members, and totality of the extractors are NOT decided here",
-    explanation="the wrapper guarantees stripping and totality for everything that is not produced by the extractor closure.",
+               "body that is empty unless the status is 200 and the body is UTF-8 text, in which case it is exactly the extractor's output for that text; and that "
+               "apply_to_body_json's body is empty or print(extractor(parse(text))) — a function of the parsed value only",
+    level_note="PARTIAL: serde_json::from_str / Value::to_string are uninterpreted functions (their insensitivity to whitespace and member order and the canonical "
+               "printed form are serde_json's, not decided); the ten per-endpoint extractor closures (json! + Index + as_u64, text.parse::<u64>()) are not under contract: "
+               "that they keep only the single member `height` and never trap is NOT decided here; the closure inside apply_to_body_json is annotated by a reported R9 rewrite",
+    explanation="the wrappers guarantee stripping (headers, everything outside the extractor's output) and totality for everything that is not produced by the extractor closure.",
     unverified_links=[
-        "endpoints.rs::apply_to_body_json and the ten endpoint closures (serde_json)",
-        "candid::Nat comparison with 200u8, String::from_utf8 / into_bytes (assumed specs)",
+        "the ten endpoint closures in endpoints.rs:17-241 (serde_json Index / as_u64 / json!, str::parse)",
+        "candid::Nat comparison with 200u8, String::from_utf8 / into_bytes, serde_json parse/print (assumed specs)",
     ],
     assumptions=COMMON_ASSUMPTIONS + ["the extractor closure is total"],
 )
